@@ -91,8 +91,8 @@ SPEC = {
             "of 16 kinds, in the entry file or an included file) x 4 targets x edits: k in 0..50 whole lines (blank, comment, "
             "whitespace) at a line start, or 1..n trivia insertions (spaces, tabs, block comments, line comment + newline, "
             "blank lines, CRLF, backslash-newline splices) at token boundaries taken from the real lexer, never directly after "
-            "< or >, never between a macro name and ( in a #define, never inside an #include argument, no line breaks on "
-            "directive lines; plus the repository's own multi-file inputs; plus SourceManager / MessagePrinter requests on "
+            "< or >, never between a macro name and ( in a #define, never inside an #include argument, not directly after a line comment (the text would join the "
+            "comment), a comment after a / token gets a leading space, no line breaks on directive lines; plus the repository's own multi-file inputs; plus SourceManager / MessagePrinter requests on "
             "random multi-file texts. Oracle: accepted programs give byte-identical source, stages and metadata; rejected "
             "programs give the original diagnostic with every position replaced by the position of the same byte of the edited "
             "text (k lines: line + k, same column, message, file). non-trivial = something was inserted / a position beyond the "
